@@ -551,6 +551,9 @@ class P:
             return ("un", "!", self.unary(nostruct))
         if self.accept("op", "-"):
             raise Untranslatable("unary minus")
+        if self.peek() == ("op", "||"):
+            self.next()
+            return ("closure", [], self.expr())
         if self.peek() == ("op", "|"):
             self.next()
             names = []
